@@ -187,8 +187,35 @@ def run_shard(spec):
         # "leaf references" of the graph: locations without a definition (top-level leaves and nested members)
         leaves = [l for l in hg.locs if l["group"] == "leaf" or
                   (hg.shadow.ckey(l["path"]) not in hg.shadow.defs and l["kind"] == "float")]
+        args = None
+        stop = False
         for sub in range(rng.randrange(2, 5)):
-            args = rng.sample(leaves, rng.randrange(1, 5))
+            if sub and rng.random() < 0.7:
+                # the history goes on between two generations, mostly REMOVING definitions (a plain value assigned to a
+                # defined location, unregister); the next function is then often generated under the same name for the
+                # same references: it must describe the definitions that exist now
+                saved_w = hg.w
+                hg.w = dict({k: 0 for k in saved_w}, val=0.55, unreg=0.3, leafval=0.15)
+                for _ in range(rng.randrange(1, 4)):
+                    op, exp = hg.next_op()
+                    if op is None:
+                        break
+                    f = ls.step(op, exp)
+                    ops.append(op)
+                    if f:
+                        stop = True
+                        if not (f["kind"] == "mismatch" and kf.is_open("KF1", ID) and mgrmon.shadow_structural_cycle(hg.shadow, ls.runner)):
+                            violations.append({"what": "C13 history (C01 oracle) failed: %s" % (f,), "world": hg.world, "ops": ops})
+                        break
+                    twin.exec_op(op)
+                    counters["history_ops_between_generations"] = counters.get("history_ops_between_generations", 0) + 1
+                hg.w = saved_w
+                if stop or not hg.shadow.defs or mgrmon.shadow_structural_cycle(hg.shadow, real):
+                    break
+            if args is not None and sub and rng.random() < 0.6:
+                counters["regenerated_for_the_same_references"] = counters.get("regenerated_for_the_same_references", 0) + 1
+            else:
+                args = rng.sample(leaves, rng.randrange(1, 5))
             names = ["a%d" % i for i in range(len(args))]
             kwargs = {nm: real.mkref(l["path"]) for nm, l in zip(names, args)}
             wit = {"world": hg.world, "ops": ops, "args": [l["path"] for l in args]}
